@@ -47,10 +47,19 @@ def install(I, files):
             files.setdefault(path, [])
         else:
             raise EngineError(f"open mode {mode}")
-        return Opaque(f"file({path})", {"ctx": "transparent", "attrs": {"$path": path}, "isinstance_default": False,
+        return Opaque(f"file({path})", {"ctx": "transparent", "attrs": {"$path": path, "$encoding": k.get("encoding")}, "isinstance_default": False,
                                         "methods": {"write": lambda I2, o, a2, k2: files[path].append(a2[0])}})
     I.builtins["open"] = native(open_)
-    w.stubs["json.dump"] = lambda I_, a, k: files[a[1].spec["attrs"]["$path"]].append(J(a[0]))
+    def dump(I_, a, k):
+        # precondition of the assumed library contract A-JSON: the text written is pure ASCII (json's default ensure_ascii=True), so that
+        # the file - opened without an explicit encoding - can always encode it; a document with non-ASCII text or a lone surrogate
+        # (os.fsdecode of a non-UTF-8 path) otherwise raises UnicodeEncodeError in the middle of the record and leaves a file that does not parse
+        enc = a[1].spec["attrs"].get("$encoding")
+        ascii_only = k.get("ensure_ascii", True) is not False
+        w.check(f"{MJ}:json.dump#call.requires[the record is written as pure-ASCII JSON text (ensure_ascii left on), whatever the locale's file encoding]",
+                ascii_only, {"replay": "jsonfiles.non_ascii", "kwargs": sorted(k), "encoding": enc})
+        files[a[1].spec["attrs"]["$path"]].append(J(a[0]))
+    w.stubs["json.dump"] = dump
     w.stubs["datetime.datetime.today"] = lambda I_, a, k: Opaque("today", {"methods": {"strftime": lambda I2, o, a2, k2: "2026-01-01"}})
 
 
